@@ -21,6 +21,11 @@ impl<T: Write> WritePrinter<T> {
         &self.writer
     }
 
+    #[cfg(feature = "verif")]
+    pub fn verif_writer(&self) -> &T {
+        &self.writer
+    }
+
     fn print_as_is(&mut self, s: &str) -> std::io::Result<usize> {
         let bytes_written = self.writer.write(s.as_bytes())?;
         self.writer.flush()?;
